@@ -61,6 +61,10 @@ def configs(tier):
                             fk = ['int', 'real', 'default'][(K + m + SDT.index(sdt)) % 3]
                             out.append({'route': route, 'K': K, 'm': m, 'ncl': ncl, 'sdt': sdt, 'chk': chk,
                                         'rdt': rdt, 'factor': fk, 'nc': 2 if quick else 3})
+    for m in (1, 2):
+        for sdt in ('int64', 'uint64'):
+            out.append({'route': 'export', 'K': 1, 'm': m, 'ncl': 1, 'sdt': sdt, 'chk': 'array', 'rdt': 'int16',
+                        'factor': 'real', 'nc': 2, 'cbin': True, 'cache': sdt == 'int64'})
     for nsw in (2, 3):
         for nq in (1, 2):
             for nreq in (1, 2):
@@ -90,9 +94,16 @@ def run_config(cfg, e):
         vfs.reset()
         route = cfg['route']
         if route in ('extract', 'export'):
-            rec = SymRecording(e, 'flat' if cfg['K'] > 1 else 'array', cfg['K'], cfg['nc'], cfg['rdt'],
-                               header=False)
+            rec = SymRecording(e, 'cbin' if cfg.get('cbin') else ('flat' if cfg['K'] > 1 else 'array'), cfg['K'],
+                               cfg['nc'], cfg['rdt'], header=False)
             n = rec.n
+            cbin = None
+            if cfg.get('cbin'):
+                c1 = e.int('c1', 1)
+                e.assume(c1 < n)
+                bs = e.int('batch_size', 1)
+                e.prefer.append(sand(bs <= 2, c1 <= 8))
+                cbin = (c1, bs)
             m, ncl = cfg['m'], cfg['ncl']
             nsw = e.int('nsw', 1)
             e.prefer.append(nsw <= 4)
@@ -125,11 +136,15 @@ def run_config(cfg, e):
             else:
                 factor = e.real('factor')
                 e.prefer.append(sor(factor == SymReal(z3.RealVal('1/2')), factor == SymReal(z3.RealVal('5/2'))))
-            e.case_builder = lambda ev: dict(rec.case(ev), route=route, nsw=ev(nsw), samples=ev(ss), sdt=cfg['sdt'],
+            e.case_builder = lambda ev: dict(rec.case(ev), cbin=None if cbin is None else [ev(cbin[0]), ev(cbin[1])],
+                                             route=route, nsw=ev(nsw), samples=ev(ss), sdt=cfg['sdt'],
                                              channels=[ev(r) for r in chs], chk=cfg['chk'],
                                              factor=None if factor is None else ev(factor), fkind=fk)
             try:
-                reader = rec.make_reader(pkg)
+                if cbin is None:
+                    reader = rec.make_reader(pkg)
+                else:
+                    reader = rec.make_reader(pkg, chunk_bounds=[0, cbin[0], n], batch_size=cbin[1])
                 if route == 'extract':
                     out = tr.extract_waveforms(reader, samples, channels, n_samples_waveforms=nsw)
                     exp_dt = rec.dtype
@@ -140,7 +155,7 @@ def run_config(cfg, e):
                         exp_dt = np.dtype('float64')
                     else:
                         tr.export_waveforms(path, reader, samples, channels, n_samples_waveforms=nsw,
-                                            sample2unit=factor)
+                                            sample2unit=factor, **({'cache': cfg['cache']} if cbin else {}))
                         exp_dt = np.dtype('float64')
                     try:
                         out = snp.load(path)
@@ -260,7 +275,10 @@ def replay(case):
         from phylib.io import traces as tr
         from phylib.io import model as mod
         from phylib.utils import Bunch
-        reader = rr.reader()
+        if case.get('cbin'):
+            reader = rr.reader(chunk_duration=case['cbin'][0] / RATE, n_threads=max(1, min(4, case['cbin'][1])))
+        else:
+            reader = rr.reader()
         data = rr.data
         route = case['route']
         nsw = case['nsw']
@@ -286,6 +304,8 @@ def replay(case):
             kw = {}
             if f is not None:
                 kw['sample2unit'] = int(f) if case['fkind'] == 'int' else float(f)
+            if case.get('cbin'):
+                kw['cache'] = True
             try:
                 tr.export_waveforms(path, reader, samples, channels, n_samples_waveforms=nsw, **kw)
             except Exception as ex:
@@ -296,6 +316,7 @@ def replay(case):
                 return 'exported file does not load (traces %s, factor %r): %r' % (data.dtype, kw, ex)
             want = np.stack([_np_window(data, int(s), nsw, chs[k]) for k, s in enumerate(case['samples'])])
             want = want * kw.get('sample2unit', 1)
+            kw.pop('cache', None)
             if out.shape != want.shape:
                 return 'exported shape %s, declared/expected %s' % (out.shape, want.shape)
             if not np.allclose(out, want, rtol=1e-6, atol=1e-9):
